@@ -201,6 +201,14 @@ func (s *Sched) Quiesce(maxWait time.Duration) (blocked []GoroutineInfo, ok bool
 			ign := false
 			root := rootOf(g.Stack)
 			for _, ig := range s.Ignore {
+				if strings.Contains(ig, "goWorker") && strings.Contains(g.Stack, "massnet.org/mass/") {
+					continue // a pool worker that is running (or blocked inside) repository code is NOT idle
+				}
+				// housekeeping goroutines are ignored only while they are blocked: a pool worker that
+				// is runnable has been handed a task and is about to run repository code
+				if (strings.Contains(ig, "ants/") || strings.Contains(ig, "rotatelogs") || strings.Contains(ig, "lfshook")) && !blockedReasons[g.Reason] {
+					continue
+				}
 				if strings.Contains(root, ig) {
 					ign = true
 					break
